@@ -228,7 +228,9 @@ def run(chk, scratch):
             return nf if isinstance(nf, str) else nf[pos]
 
         def rg_of(nf):
-            return [] if isinstance(nf, str) else ["--read_group", "file_name"]
+            # mixed sequences (experiments with one and with several files) run WITHOUT --read_group as well: implicit grouping by file name is
+            # a matter of each experiment
+            return []
         solo_keys = set()
         for names, nf, t, mode in seqs:
             for pos, n in enumerate(names):
@@ -241,7 +243,7 @@ def run(chk, scratch):
             out = os.path.join(d, "solo_%s_%s_%d_%s_%s" % (tag, nf, t, mode.replace(":", "-").replace(",", "-"), rg))
             inp = os.path.join(d, "solo_%s_%s_%s_%s.in" % (tag, nf, mode.replace(":", "-").replace(",", "-"), rg))
             extra = ["--no_model_construction"] if mode.endswith("nomodels") else []
-            extra += ["--read_group", "file_name"] if rg else []
+            extra += []
             extra += ["--read_group", "file:%s" % os.path.join(d, "groups.tsv")] if mode.endswith("rgtable") else []
             if mode.startswith("yaml"):
                 write_yaml(inp, [(n, paths[n][nf])], unlabeled=unlabeled_of(mode), illumina=illumina_of(mode))
@@ -317,7 +319,7 @@ def run(chk, scratch):
         if chk.violations and not getattr(chk, "witness_files", None):
             chk.witness_files = [os.path.join(d, f) for f in os.listdir(d) if f.endswith((".bam", ".bai", ".gtf", ".fa", ".in"))]
     chk.assumptions = ["stand-alone and joint runs use the same experiment name, labels and option string",
-                       "sequences either keep the number of files per experiment uniform or run with an explicit --read_group file_name (a mixed sequence switches on file-name grouping for all experiments)"]
+                       "mixed sequences (experiments with one and with several files) run without --read_group, stand-alone and jointly: implicit grouping by file name is a matter of each experiment (repaired in the tree by 377a93e; before, this check passed --read_group file_name explicitly to such sequences, which hid the defect)"]
     chk.inconclusive_if(chk.extra.get("experiment_comparisons", 0) == 0, "no experiment compared")
     chk.inconclusive_if(chk.extra.get("multi_file_experiments_after_a_single_file_one", 0) == 0, "no multi-file experiment was processed after a single-file one")
     chk.min_nontrivial = 3
